@@ -82,6 +82,20 @@ def m_strlen(it, a):
         elif b & 0xff == 0: return n
         n += 1
 
+def m_fmod(it, a):
+    """C fmod(x, y) = x - y * trunc(x / y): result has the sign of x and magnitude below |y| (exact reals; y != 0)"""
+    import math as _m
+    from fractions import Fraction as _F
+    x, y = a
+    if not is_sym(x) and not is_sym(y):
+        if isinstance(x, float) or isinstance(y, float): return _m.fmod(x, y)
+        fx, fy = _F(x), _F(y); q = abs(fx) // abs(fy); r = abs(fx) - q * abs(fy); return r if fx >= 0 else -r
+    n = it.newsym('fmod_n', 'int'); X = it.R(x); Y = it.R(y); res = X - Y * z3.ToReal(n)
+    ay = z3.If(Y >= 0, Y, -Y)
+    it.assume(Y != 0)
+    it.assume(z3.If(X >= 0, z3.And(res >= 0, res < ay), z3.And(res <= 0, res > -ay)))
+    return res
+
 def base():
     M = {
         '@_Znwm': m_new, '@_Znam': m_new, '@_ZdlPv': m_free, '@_ZdaPv': m_free, '@_ZdlPvm': m_free, '@malloc': m_new, '@free': m_free, '@realloc': m_realloc,
@@ -95,6 +109,7 @@ def base():
         're:^@_ZSt\\d+__throw_': m_thrower, '@_ZSt9terminatev': m_thrower, '@abort': m_thrower,
         '@sqrt': _math1('sqrt', math.sqrt), '@exp': _math1('exp', math.exp), '@log': _math1('log', math.log),
         '@acos': _math1('acos', math.acos), '@sin': _math1('sin', math.sin), '@cos': _math1('cos', math.cos), '@pow': m_pow,
+        '@fmod': m_fmod,
         '@memcmp': m_memcmp, '@bcmp': m_memcmp, '@memcpy': m_memcpy, '@memmove': m_memcpy, '@strlen': m_strlen,
     }
     return M
